@@ -170,8 +170,8 @@ class ConfigService:
         :param filename: the frame file name
         :return: True if add frame, else False
         """
-        in_app_include = self.IN_APP_INCLUDE
-        in_app_exclude = self.IN_APP_EXCLUDE
+        in_app_include = self._as_prefix_list(self.IN_APP_INCLUDE)
+        in_app_exclude = self._as_prefix_list(self.IN_APP_EXCLUDE)
 
         for path in in_app_exclude:
             if filename.startswith(path):
@@ -185,6 +185,22 @@ class ConfigService:
             return True, self.APP_ROOT
 
         return False, None
+
+    @staticmethod
+    def _as_prefix_list(value) -> List[str]:
+        """
+        Normalise an include/exclude setting.
+
+        The documented form is a string of comma separated values, lists are accepted too.
+
+        :param value: the configured value
+        :return: the list of path prefixes
+        """
+        if value is None:
+            return []
+        if isinstance(value, str):
+            return [prefix for prefix in value.split(',') if prefix]
+        return value
 
     def _find_plugin(self, plugin_type) -> PLUGIN_TYPE:
         return next(self.__plugin_generator(plugin_type), None)
